@@ -357,6 +357,15 @@ func (r *qrun) apply(op Op) string {
 		return rep(a%maxRun+1, r.doPop)
 	case "popLastRun":
 		return rep(a%maxRun+1, r.doPopLast)
+	// long runs: hundreds of elements, several growth steps of the buffer
+	case "addRunL":
+		return rep(a%500+50, r.doAdd)
+	case "pushRunL":
+		return rep(a%500+50, r.doPush)
+	case "popRunL":
+		return rep(a%500+50, r.doPop)
+	case "popLastRunL":
+		return rep(a%500+50, r.doPopLast)
 	}
 	return r.errf("VK-INFRA unknown op kind %q", op.K)
 }
